@@ -181,9 +181,23 @@ structure WInv (own : Owner) (w : WSt) : Prop where
     (∀ k ∈ r.keys, k ∈ w.libKeys) ∧
     -- the root window's reference on the terminal, besides the application's
     (own.holdsRef = true → b2n w.st.userRef + w.st.frozenRefs + 1 ≤ w.st.refs)
+  /-- occurrence numbers start at 1 -/
+  occ : 1 ≤ w.st.nextOcc
 
 theorem WInv.init (own : Owner) : WInv own WSt.init :=
-  ⟨Top.init, RefOk.init own, fun r hr => by simp [WSt.init] at hr⟩
+  ⟨Top.init, RefOk.init own, fun r hr => by simp [WSt.init] at hr, by simp [WSt.init, St.init]⟩
+
+/-- unbind requests for other bindings do not change a binding's liveness -/
+theorem liveAt_reqs (l : List Nat) (log : List Ev) (k : Nat) (h : k ∉ l) :
+    liveAt (l.map Ev.unbindReq ++ log) k ↔ liveAt log k := by
+  induction l with
+  | nil => simp
+  | cons x xs ih =>
+    simp only [List.map_cons, List.cons_append]
+    rw [liveAt_cons (by
+      simp only [Ev.affects, ne_eq, Option.some.injEq]
+      intro e; exact h (by rw [e]; exact List.mem_cons_self ..))]
+    exact ih (fun hm => h (List.mem_cons_of_mem _ hm))
 
 /-- the root window's bindings, as (key, identifier) pairs -/
 def Root.pairs (r : Root) : List (Nat × Int) := r.keys.zip r.ids
@@ -214,7 +228,7 @@ theorem rootNew_inv {own : Owner} {w : WSt} (h : WInv own w) : WInv own (rootNew
     have h1 := libBind_inv h0 1 0
     have h2 := libBind_inv h1 2 1
     have h3 := libBind_inv h2 3 2
-    refine ⟨⟨h3, h.top.2⟩, libBind_refOk (libBind_refOk (libBind_refOk hro0 1 0) 2 1) 3 2, ?_⟩
+    refine ⟨⟨h3, h.top.2⟩, libBind_refOk (libBind_refOk (libBind_refOk hro0 1 0) 2 1) 3 2, ?_, h.occ⟩
     intro r' hr'
     simp only [Option.some.injEq] at hr'
     subst hr'
@@ -252,6 +266,7 @@ theorem rootUnref_spec (hs : Safe own beh) {w : WSt} (h : WInv own w) (hi : Root
       st1.log = (r.keys.reverse.map Ev.unbindReq) ++ w.st.log ∧
       st1.list = w.st.list.filter (fun b => !r.keys.contains b.key) ∧
       Inv st1 ∧ RefOk own st1 ∧ st1.isIter = false ∧ st1.refs = w.st.refs ∧ st1.userRef = w.st.userRef ∧
+      st1.nextOcc = w.st.nextOcc ∧
       match rootUnref Cfg.repaired own beh (fuel + 1) w with
       | .ok w' => w'.root = none ∧ w'.libKeys = w.libKeys ∧
           ((w'.st.dead = false ∧ w'.st = { st1 with refs := st1.refs - 1 } ∧ WInv own w') ∨
@@ -269,7 +284,7 @@ theorem rootUnref_spec (hs : Safe own beh) {w : WSt} (h : WInv own w) (hi : Root
   have hlist' := hlist h.top.2
   rw [hfst] at hlist'
   have hni1 : st1.isIter = false := hi1.trans h.top.2
-  refine ⟨st1, he, hlog', hlist', h1, hro1, hni1, hr1, hu1, ?_⟩
+  refine ⟨st1, he, hlog', hlist', h1, hro1, hni1, hr1, hu1, hn1, ?_⟩
   have hun := unref_post own beh (fuel := fuel) hs h1 hro1 (fun hit => by rw [hni1] at hit; cases hit)
   simp only [rootUnref, hr, hlast, Nat.lt_irrefl, if_false, he]
   cases hc : exec Cfg.repaired own beh (fuel + 1) .unref st1 with
@@ -283,7 +298,7 @@ theorem rootUnref_spec (hs : Safe own beh) {w : WSt} (h : WInv own w) (hi : Root
     rcases hun with ⟨hd2, h2r, he2⟩ | ⟨hd2, _, htr, seg, hseg⟩
     · refine Or.inl ⟨hd2, he2, ?_⟩
       subst he2
-      refine ⟨⟨h1.of_refs _ (by omega), hni1⟩, ⟨hro1.1, fun hh => ?_⟩, fun r' hr' => by cases hr'⟩
+      refine ⟨⟨h1.of_refs _ (by omega), hni1⟩, ⟨hro1.1, fun hh => ?_⟩, fun r' hr' => (by cases hr'), (by simp only; rw [hn1]; exact h.occ)⟩
       have := hrefs hh
       simp only [hni1, b2n_false, Nat.add_zero]
       rw [hu1, hf1, hr1]
@@ -292,7 +307,7 @@ theorem rootUnref_spec (hs : Safe own beh) {w : WSt} (h : WInv own w) (hi : Root
 
 theorem WInv.of_root {w : WSt} (h : WInv own w) {r r' : Root} (hr : w.root = some r) (hk : r'.keys = r.keys) (hids : r'.ids = r.ids)
     (hrefs : 1 ≤ r'.refs) : WInv own { w with root := some r' } := by
-  refine ⟨h.top, h.ref, fun x hx => ?_⟩
+  refine ⟨h.top, h.ref, fun x hx => ?_, h.occ⟩
   simp only [Option.some.injEq] at hx
   subst hx
   obtain ⟨a, b, _, d, e, f⟩ := h.lib r hr
@@ -321,7 +336,7 @@ theorem rootUnref_good (hs : Safe own beh) (fuel : Nat) {w : WSt} (h : WInv own 
         | nil => simp [unbindAll, exec, PostW]
         | cons x xs => simp [unbindAll, exec, PostW]
       | succ fuel =>
-        obtain ⟨st1, _, _, _, _, _, _, _, _, hres⟩ := rootUnref_spec own beh hs h hi hr hlast fuel
+        obtain ⟨st1, _, _, _, _, _, _, _, _, _, hres⟩ := rootUnref_spec own beh hs h hi hr hlast fuel
         cases hc : rootUnref Cfg.repaired own beh (fuel + 1) w with
         | outOfFuel => trivial
         | ub x => rw [hc] at hres; exact hres.elim
@@ -451,7 +466,7 @@ theorem execW_good (hs : Safe own beh) (fuel : Nat) (op : WOp) (hop : WOpOk op) 
         rw [hc] at hpo
         intro hal _
         rcases hpo with ⟨_, htop, hro, s⟩ | ⟨hdd, _⟩
-        · refine ⟨htop, hro, fun r hr => ?_⟩
+        · refine ⟨htop, hro, fun r hr => ?_, Nat.le_trans h.occ s.occMono⟩
           obtain ⟨a, b, c, d, e, f⟩ := h.lib r hr
           obtain ⟨seg, hseg, _⟩ := s.logExt
           refine ⟨a, b, c, fun p hp => ?_, e, fun hh => ?_⟩
